@@ -121,8 +121,11 @@ Definition MSG_EXT_INFO : Z := 7.        Definition MSG_KEXINIT : Z := 20.
 Definition MSG_NEWKEYS : Z := 21.        Definition MSG_KEX_FIRST : Z := 30.
 Definition MSG_KEX_INIT : Z := 30.       Definition MSG_KEX_REPLY : Z := 31.
 Definition MSG_KEX_LAST : Z := 49.       Definition MSG_USERAUTH_REQUEST : Z := 50.
-Definition MSG_USERAUTH_FIRST : Z := 50. Definition MSG_USERAUTH_SUCCESS : Z := 52.
+Definition MSG_USERAUTH_FAILURE : Z := 51. Definition MSG_USERAUTH_SUCCESS : Z := 52.
 Definition MSG_USERAUTH_BANNER : Z := 53. Definition MSG_USERAUTH_LAST : Z := 79.
+(* asyncssh's constants: 60..79 are the method specific messages routed to the auth handler; 50..59
+   are handled by the connection itself *)
+Definition MSG_USERAUTH_FIRST : Z := 60.
 
 Record cst := mkC {
   strict : bool;         (* _strict_kex *)
@@ -287,11 +290,14 @@ Definition step (e : env) (s : cst) (x : ev) : cst :=
         else received (send_packet s MSG_UNIMPLEMENTED)
       else if strict s && negb (recv_enc s) && (MSG_IGNORE <=? t) && (t <=? MSG_DEBUG) then set_closed s
       else if (MSG_USERAUTH_FIRST <=? t) && (t <=? MSG_USERAUTH_LAST) then
-        if auth s then received s else set_closed s
+        if auth s then received s else set_closed s            (* 'Authentication not in progress' *)
       else if (t >? MSG_KEX_LAST) && negb (recv_enc s) then set_closed s
       else if (t >? MSG_USERAUTH_LAST) && negb (auth_complete s) then set_closed s
       else if t =? MSG_DISCONNECT then set_closed s
-      else received s
+      else if t =? MSG_USERAUTH_REQUEST then set_closed s      (* 'Unexpected userauth request' *)
+      else if (t =? MSG_USERAUTH_FAILURE) || (t =? MSG_USERAUTH_SUCCESS) then
+        if auth s then received s else set_closed s            (* 'Unexpected userauth ... response' *)
+      else received s                                          (* a banner is taken at any time once encrypted *)
   | ELocalSend t =>
       if kex_owned t then s else send_packet s t
   end.
@@ -301,7 +307,7 @@ Definition run (e : env) (evs : list ev) : cst := fold_left (step e) evs init.
 (* messages that must not leave the client before the host key was accepted and the signature
    verified: NEWKEYS, SERVICE_REQUEST and everything from USERAUTH_REQUEST upwards *)
 Definition gated (t : Z) : bool :=
-  (t =? MSG_NEWKEYS) || (t =? MSG_SERVICE_REQUEST) || (MSG_USERAUTH_FIRST <=? t).
+  (t =? MSG_NEWKEYS) || (t =? MSG_SERVICE_REQUEST) || (MSG_USERAUTH_REQUEST <=? t).
 
 (* an event that is a KEX reply whose key the trust configuration accepts and whose signature
    verifies under that key over the client's exchange hash *)
